@@ -346,7 +346,7 @@ package fit
 //@ spec hdr12Sum(h Header) uint16 := dyncrc16.UpdSpec(dyncrc16.UpdSpec(dyncrc16.UpdSpec(dyncrc16.UpdSpec(dyncrc16.UpdSpec(dyncrc16.UpdSpec(dyncrc16.UpdSpec(dyncrc16.UpdSpec(dyncrc16.UpdSpec(dyncrc16.UpdSpec(dyncrc16.UpdSpec(dyncrc16.UpdSpec(0, h.Size), h.ProtocolVersion), byte(h.ProfileVersion)), byte(h.ProfileVersion>>8)), byte(h.DataSize)), byte(h.DataSize>>8)), byte(h.DataSize>>16)), byte(h.DataSize>>24)), h.DataType[0]), h.DataType[1]), h.DataType[2]), h.DataType[3])
 
 //@ func (h Header) MarshalBinary() (r []byte, err error)
-//@   props C05
+//@   props C05 C07
 //@   ensures [ok] err == nil
 //@   ensures [len] len(r) == ite(h.Size == 14, 14, 12) && fresh(r)
 //@   ensures [fields] r[0] == h.Size && r[1] == h.ProtocolVersion && r[2] == byte(h.ProfileVersion) && r[3] == byte(h.ProfileVersion>>8) &&
@@ -1386,22 +1386,39 @@ package fit
 //@   ensures [stored] {C04} pos(d.r) == old(pos(d.r))+2 ==> d.file.CRC == uint16(instream(d.r, old(pos(d.r))))|uint16(instream(d.r, old(pos(d.r))+1))<<8
 //@   assigns d.tmp[..], pos(d.r), dyncrc16.GhostSum(d.crc), d.file.CRC
 
-//@@ assumed for now (range over a map, sort.Sort): export of the unknown-item counters
+//@@ C16: export of the counters. The exported list has exactly as many entries as the counter map, and every entry
+//@@ is a (key, count) pair of the map (map iteration and sort.Sort follow the assumed models: see the evidence)
 //@ ghost func fexported(d *decoder) int
 //@ ghost func mexported(d *decoder) int
 //@ func (d *decoder) handleUnknownFields()
 //@   props C01 C16
-//@   trusted
+//@   locals rangecount int
+//@   patterns inner
 //@   requires file_inv(d)
+//@   ensures [exact-len] len(d.file.UnknownFields) == len(d.unknownFields)
+//@   ensures [exact-entries] forall k in 0..len(d.file.UnknownFields) :: d.file.UnknownFields[k].Count == d.unknownFields[unknownField{d.file.UnknownFields[k].MesgNum, d.file.UnknownFields[k].FieldNum}]
 //@   gassign {C16} fexported(d) := 1
 //@   assigns d.file.UnknownFields
+//@   loop 0 invariant [file] d.file == old(d.file) && same(d.unknownFields, old(d.unknownFields)) && fresh(d.file.UnknownFields) && offset(d.file.UnknownFields) == 0
+//@   loop 0 invariant [len] len(d.file.UnknownFields) == rangecount
+//@   loop 0 invariant [entries] forall k in 0..len(d.file.UnknownFields) :: d.file.UnknownFields[k].Count == d.unknownFields[unknownField{d.file.UnknownFields[k].MesgNum, d.file.UnknownFields[k].FieldNum}]
+//@   loop 0 assigns d.file.UnknownFields, d.file.UnknownFields[..]
+//@   loop 0 decreases len(d.unknownFields) - rangecount
 
 //@ func (d *decoder) handleUnknownMessages()
 //@   props C01 C16
-//@   trusted
+//@   locals rangecount int
+//@   patterns inner
 //@   requires file_inv(d)
+//@   ensures [exact-len] len(d.file.UnknownMessages) == len(d.unknownMessages)
+//@   ensures [exact-entries] forall k in 0..len(d.file.UnknownMessages) :: d.file.UnknownMessages[k].Count == d.unknownMessages[d.file.UnknownMessages[k].MesgNum]
 //@   gassign {C16} mexported(d) := 1
 //@   assigns d.file.UnknownMessages
+//@   loop 0 invariant [file] d.file == old(d.file) && same(d.unknownMessages, old(d.unknownMessages)) && fresh(d.file.UnknownMessages) && offset(d.file.UnknownMessages) == 0
+//@   loop 0 invariant [len] len(d.file.UnknownMessages) == rangecount
+//@   loop 0 invariant [entries] forall k in 0..len(d.file.UnknownMessages) :: d.file.UnknownMessages[k].Count == d.unknownMessages[d.file.UnknownMessages[k].MesgNum]
+//@   loop 0 assigns d.file.UnknownMessages, d.file.UnknownMessages[..]
+//@   loop 0 decreases len(d.unknownMessages) - rangecount
 
 //@ lemma frame_exact(pos int, p0 int, n int, i int, j int, size byte, dsize uint32)
 //@   timeout 120
